@@ -13,4 +13,5 @@ class Number(internal.SingleValueRawTokenModel[decimal.Decimal]):
     
     @classmethod
     def _format_value(cls, value: decimal.Decimal) -> str:
-        return str(value)
+        # str() switches to scientific notation for small/large exponents ('1E+3', '1E-7'), which is not a NUMBER lexeme.
+        return format(value, 'f')
